@@ -212,7 +212,10 @@ fn ev_conv_big(rng: &mut StdRng, out: &mut Out, case: &str, sh: &Value) {
     let lg = sh["lg"].as_u64().unwrap() as u32;
     let pat = sh["pat"].as_str().unwrap();
     let size = 1usize << lg;
-    let n = modulus(rng, bits);
+    // "mtop": the modulus is as large as its bit length allows and the operands are the residues whose MONTGOMERY
+    // REPRESENTATIVES (what the packed transform really multiplies) are n - 1, n - 2, n - 3: every packed slot then
+    // holds the largest sum it can ever hold
+    let n = if pat == "mtop" { (Uint::ONE << bits) - Uint::ONE - Uint::from(2 * rng.gen_range(0..8u64)) } else { modulus(rng, bits) };
     let zn = ZmodN::new(n);
     let mut pa = vec![Uint::ZERO; size];
     let mut pb = vec![Uint::ZERO; size];
@@ -260,7 +263,17 @@ fn ev_conv_big(rng: &mut StdRng, out: &mut Out, case: &str, sh: &Value) {
         ev["bp"] = pairs(&bp);
     } else {
         let val = |rng: &mut StdRng, d: u64| {
-            if pat == "ptop" { n - Uint::from(d) } else { rand_below(rng, &n) }
+            if pat == "ptop" {
+                n - Uint::from(d)
+            } else if pat == "mtop" {
+                let top = n - Uint::from(d);
+                let mut w = MInt::default();
+                let k = w.0.len();
+                w.0.copy_from_slice(&top.digits()[..k]);
+                zn.to_int(w)
+            } else {
+                rand_below(rng, &n)
+            }
         };
         let d = |rng: &mut StdRng| 1 + rng.gen_range(0..3u64); // moduli here have at least 64 bits
         let (d1, d2, d3, d4) = (d(rng), d(rng), d(rng), d(rng));
